@@ -3,7 +3,8 @@
  * the tree is built by hand from exactly RB_N extents (compile-time constant of the unit, 0..4; with RB_NSYM the
  * number is symbolic in 0..RB_N) taken from IN (sorted, disjoint, non-adjacent, count > 0), in every red-black
  * shape that so many nodes admit (IN.shape, or the constant RB_SHAPE), with the cursors set to arbitrary nodes or
- * NULL (rcursor_next: NULL or the in-order successor of rcursor, which is the invariant rb_test_bit maintains).
+ * NULL (rcursor_next: NULL or the in-order successor of rcursor, which is the invariant rb_test_bit maintains; while
+ * rcursor is NULL rcursor_next may be any node: rb_free_extent(rcursor) leaves that state behind).
  * After ONE operation the tree is walked by the harness's own structural in-order walk (not by rbtree.c) and
  * checked for
  *   well_formed: child/parent links consistent, height <= RB_MAXH, extents sorted, disjoint, non-adjacent,
@@ -12,6 +13,9 @@
  *                (so the result is again one of the shapes the builder enumerates for its size);
  *   set view at the ghost bit verif_k against the reference set computed from IN.
  * All bit numbers in IN are relative to bitmap->start unless stated otherwise.
+ *
+ * Mutating operations are checked per SCENARIO (RB_SCEN, see rb.c) with "never called" contracts for the tree mutators a
+ * scenario cannot reach (below).
  *
  * Size knobs (per unit, via "defines"):
  *   RB_N      number of extents before the operation (constant)             RB_NSYM  make it symbolic 0..RB_N
@@ -246,9 +250,6 @@ static void build_rb(void)
 	build_shape(RB_N);
 #endif
 	ASSUME(IN.wc <= NN && IN.rc <= NN);
-#ifdef RB_NOCURSOR
-	ASSUME(IN.wc == 0 && IN.rc == 0 && IN.rcn == 0);
-#endif
 	BP->wcursor = IN.wc ? ND[IN.wc - 1] : 0;
 	BP->rcursor = IN.rc ? ND[IN.rc - 1] : 0;
 	ASSUME(IN.rcn <= NN);
